@@ -4,3 +4,4 @@ open_("c15.named-struct-reused", "C15",
       "findings/D13-named-struct-defined-twice.json", ["c15.named-struct-reused"])
 fixed("D02b", "C13", "honour the position of null", "caller schemas with null second ([T,null]): null was written as the T selector with no value, strings under the null selector (invalid stream)", "findings/D02b-null-second-union-write.json")
 fixed("D11", "C13", "null.Float under a float schema", "null.Float under a float schema wrote the low four bytes of the float64 bit pattern", "findings/D11-nullfloat-under-float.json")
+fixed("D07a", "C03", "missing avro.codec entry", "a container header without avro.codec (legal: means null) made ReadFile panic with a nil decompressor (also C06, C07)", "findings/D07a-readfile-no-codec-nil-decoder.json")
